@@ -303,8 +303,10 @@ CLAIMED = {
         "derivation relations over token lists; by mutual induction over the four parsing functions, for every fuel, "
         "state and context: whatever p_value / p_agg / p_elems / p_settings / p_config accept is a derivation, hence a "
         "successful config_read's token stream (C18 tokens, includes expanded) is derivable; duplicate names are rejected "
-        "when overrides are off; the messages. NOT proved: completeness, the denoted tree, the first-error "
-        "characterisation; they are tied on every run by exhaustive enumeration of all viable token-kind prefixes (to "
+        "when overrides are off; the messages; and, from the C01 development, the other direction with the denoted "
+        "tree for texts in the writer's canonical form (C02_canonical_accepted, C02_canonical_configuration: the "
+        "canonical token stream of any API-shaped tree is accepted and builds exactly that tree). NOT proved: "
+        "completeness and the denoted tree for arbitrary derivations, the first-error characterisation; they are tied on every run by exhaustive enumeration of all viable token-kind prefixes (to "
         "length 5 quick / 7 thorough) with every one-token invalid extension, in several concrete spellings, overrides "
         "off/on, against the real library and against a reference parser written from the manual.",
    note="grammar.c's LALR tables and bison's driver are modelled as a recursive-descent function performing the actions in "
